@@ -399,7 +399,51 @@ fn family_unit(tier: Tier, shard: usize, ctx: &mut Ctx) {
     }
 }
 
+
+// kind "sa-large": suffix_array on one long high-entropy text (only permutation / order are
+// checked; the quadratic LCP/SUS oracles are not applicable at this size).  These texts have
+// more distinct LMS substrings than fit 16 bits, i.e. they sit on the far side of the
+// reduced-text integer-width switch inside SA-IS.
+fn large_text(seed: u64, n: usize, alpha: u32) -> Vec<u8> {
+    // fixed linear congruential generator: the text is a function of (seed, n, alpha)
+    let mut x = seed.wrapping_mul(6364136223846793005).wrapping_add(1442695040888963407);
+    let mut t = Vec::with_capacity(n + 1);
+    for _ in 0..n {
+        x = x.wrapping_mul(6364136223846793005).wrapping_add(1442695040888963407);
+        t.push(1 + ((x >> 33) % alpha as u64) as u8);
+    }
+    t.push(0);
+    t
+}
+
+fn check_large(seed: u64, n: usize, alpha: u32, cc: &mut CaseCtx) {
+    let text = large_text(seed, n, alpha);
+    cc.nontrivial();
+    match guard(|| suffix_array(&text)) {
+        Err(msg) => cc.violation("C03/suffix_array/large-text/panic", format!("seed {} n {} alphabet {}: {}", seed, n, alpha, msg)),
+        Ok(sa) => {
+            cc.outcome(&(sa.len(), sa[sa.len() / 2], sa[sa.len() - 1]));
+            if let Err(d) = ti::check_sa(&text, &sa) {
+                cc.violation(format!("C03/suffix_array/large-text/{}", d.symptom()), format!("seed {} n {} alphabet {}: {:?}", seed, n, alpha, d));
+            }
+        }
+    }
+}
+
+fn large_cases(tier: Tier) -> Vec<(u64, usize, u32)> {
+    let mut v = vec![(1u64, 150_000usize, 255u32), (2, 230_000, 255), (3, 400_000, 255), (4, 300_000, 64)];
+    if tier == Tier::Thorough {
+        v.extend([(5, 1_000_000, 255), (6, 500_000, 16), (7, 197_000, 255), (8, 210_000, 255)]);
+    }
+    v
+}
+
 fn wide_unit(tier: Tier, shard: usize, ctx: &mut Ctx) {
+    for (i, (seed, n, alpha)) in large_cases(tier).into_iter().enumerate() {
+        if i % WIDE_SHARDS == shard {
+            ctx.case(|| json!({"kind": "sa-large", "seed": seed, "n": n, "alphabet": alpha}), |cc| check_large(seed, n, alpha, cc));
+        }
+    }
     for (i, text) in ti::wide_alphabet_texts(tier).iter().enumerate() {
         if i % WIDE_SHARDS != shard {
             continue;
@@ -477,7 +521,7 @@ impl Prop for C03Prop {
             "sampled_grid_small": "s in 1..=n+1, k in {1,2,3,7,n,2n}; oracle array under sentinel order desc for every body length, asc for multi-sentinel bodies (quaternary sweeps: only bodies one symbol shorter than the bound)",
             "families": {"texts": ti::family_bodies(tier, b.sa3).len(), "max_len": ti::family_bodies(tier, b.sa3).iter().map(|b| b.len() + 1).max(),
                          "sampled": tier.pick("n<=140: s in {1,2,3,5,8,32,33,n,n+1} x k in {1,3,64,65,2n}, sentinel order desc", "n<=100: s in {1,2,3,4,5,7,8,16,31,32,33,64,n/2,n-1,n,n+1} x k in {1,2,3,7,64,65,128,n,2n}; 100<n<=300: s in {1,2,3,5,8,32,33,n,n+1} x k in {1,3,64,65,2n}; both sentinel orders")},
-            "wide_alphabet": {"texts": ti::wide_alphabet_texts(tier).len(), "alphabet_plus_sentinels": "253..=258 and 256+{1,2,3,5}", "sampled": "s in {1,2,3,16,n} x k in {1,3,65,n}"},
+            "large_texts": "fixed pseudo-random texts (LCG) of 150k-400k (thorough: up to 1M) symbols over 16/64/255-symbol alphabets: more than 2^16 distinct LMS substrings; suffix array checked for permutation and order only", "wide_alphabet": {"texts": ti::wide_alphabet_texts(tier).len(), "alphabet_plus_sentinels": "253..=258 and 256+{1,2,3,5}", "sampled": "s in {1,2,3,16,n} x k in {1,3,65,n}"},
             "integer": {"types": "u8,u16,usize", "dense {1,2,3}^len.0": format!("1..={}", b.int3), "dense {1,2,3,4}^len.0": format!("1..={}", b.int4),
                         "families": "family words over {1,2}, value ranges 0..=254/255/256/300 as two stride permutations"}
         })
@@ -508,7 +552,7 @@ impl Prop for C03Prop {
     fn death_key(&self, case: &Value, how: &str) -> String {
         // a hang / abort of the subject on one case: name the entry point
         let entry = match case["kind"].as_str().unwrap_or("") {
-            "sa" => "suffix_array",
+            "sa" | "sa-large" => "suffix_array",
             "sampled" => "sampled",
             "int" => "suffix_array_int",
             _ => "unknown",
@@ -517,6 +561,12 @@ impl Prop for C03Prop {
     }
     fn replay(&self, case: &Value, ctx: &mut Ctx) {
         match case["kind"].as_str().unwrap_or("") {
+            "sa-large" => {
+                let seed = case["seed"].as_u64().unwrap_or(1);
+                let n = case["n"].as_u64().unwrap_or(1000) as usize;
+                let alpha = case["alphabet"].as_u64().unwrap_or(255) as u32;
+                ctx.case(|| case.clone(), |cc| check_large(seed, n, alpha, cc));
+            }
             "sa" => {
                 let text = unshow(case["text"].as_str().unwrap_or(""));
                 if !ti::is_valid_text(&text) {
